@@ -29,4 +29,36 @@ func init() {
 		{"lex-rotation-coinciding-cells", "itertools/permutations.go", "\t\t\titer.a[j], iter.a[j+1], iter.a[n-1] = iter.a[n-1], iter.a[j], iter.a[j+1]", "\t\t\titer.a[j], iter.a[j+3], iter.a[n-1] = iter.a[n-1], iter.a[j], iter.a[j+3]", "SWAP:itertools.LexicographicPermutationIterator.Next"},
 		{"value-normalises-in-place", "itertools/permutations.go", "func (iter *LexicographicPermutationIterator) Value() []int {\n\treturn iter.a", "func (iter *LexicographicPermutationIterator) Value() []int {\n\tif iter.n > 0 && iter.a[0] < 0 {\n\t\titer.a[0] = 0\n\t}\n\treturn iter.a", "FIELD-WRITERS:(*itertools.LexicographicPermutationIterator).Value"},
 	}
+	mutants["C12"] = []mutant{
+		{"lastword-recorded-before-check", "dawg/dawg.go", "\tif db.lastWord != nil && bytes.Compare(db.lastWord, b) != -1 {\n\t\treturn errors.New(\"byte slices must be added in lexicographical order\")\n\t}\n\tdb.lastWord = b\n", "\tprev := db.lastWord\n\tdb.lastWord = b\n\tif prev != nil && bytes.Compare(prev, b) != -1 {\n\t\treturn errors.New(\"byte slices must be added in lexicographical order\")\n\t}\n", "REJECT-PURE:(*dawg.Builder).Add"},
+		{"duplicates-admitted", "dawg/dawg.go", "bytes.Compare(db.lastWord, b) != -1 {", "bytes.Compare(db.lastWord, b) == 1 {", "MUSTGUARD:(*dawg.Builder).Add"},
+		{"compare-arguments-swapped", "dawg/dawg.go", "bytes.Compare(db.lastWord, b) != -1 {", "bytes.Compare(b, db.lastWord) != -1 {", "MUSTGUARD:(*dawg.Builder).Add"},
+		{"done-check-after-mutation", "dawg/dawg.go", "\tif db.done {\n\t\treturn errors.New(\"DawgBuilder has already finished\")\n\t}\n\n\tif db.lastWord != nil", "\tdb.lastID += 0\n\tif db.done {\n\t\treturn errors.New(\"DawgBuilder has already finished\")\n\t}\n\n\tif db.lastWord != nil", "REJECT-PURE:(*dawg.Builder).Add"},
+		{"add-drops-children-guard", "dawg/dawg.go", "\tif len(lastNode.links) != 0 {\n\t\tdb.register = replaceOrRegister(lastNode, db.register)\n\t}", "\tdb.register = replaceOrRegister(lastNode, db.register)", "NONEMPTY:(*dawg.Builder).Add"},
+		{"recursion-drops-children-guard", "dawg/dawg.go", "\tif len(lastChild.links) != 0 {\n\t\tregister = replaceOrRegister(lastChild, register)\n\t}", "\tregister = replaceOrRegister(lastChild, register)", "NONEMPTY:dawg.replaceOrRegister"},
+		{"finish-guard-removed", "dawg/dawg.go", "\tif len(db.d.links) != 0 {\n\t\treplaceOrRegister(db.d, db.register)\n\t}", "\treplaceOrRegister(db.d, db.register)", "NONEMPTY:(*dawg.Builder).Finish"},
+		{"lookup-counts-visits", "dawg/dawg.go", "\t\t\t\tdawg = dawg.links[j]\n\t\t\t\tif dawg.final {\n\t\t\t\t\tindex++\n\t\t\t\t}", "\t\t\t\tdawg = dawg.links[j]\n\t\t\t\tdawg.id |= 0\n\t\t\t\tif dawg.final {\n\t\t\t\t\tindex++\n\t\t\t\t}", "PURE:(*dawg.Dawg).Lookup"},
+		{"numberofwords-lazy-cache", "dawg/dawg.go", "func (t *Dawg) NumberOfWords() int {\n\treturn t.numWords", "func (t *Dawg) NumberOfWords() int {\n\tif t.numWords < 0 {\n\t\tt.numWords = 0\n\t}\n\treturn t.numWords", "WHO-WRITES:(*dawg.Dawg).NumberOfWords"},
+		{"areequivalent-sorts-labels", "dawg/dawg.go", "func areEquivalent(t, u *Dawg) bool {\n", "func areEquivalent(t, u *Dawg) bool {\n\tif len(t.linkLabels) > 300 {\n\t\tt.linkLabels[0], t.linkLabels[1] = t.linkLabels[1], t.linkLabels[0]\n\t}\n", "WHO-WRITES:dawg.areEquivalent"},
+	}
+	mutants["C13"] = []mutant{
+		{"search-prunes-visited-counts", "dawg/dawg_search.go", "\t\t\tif !allowStep {\n\t\t\t\tindex += currDawg.links[j].numWords\n\t\t\t\tcontinue\n\t\t\t}", "\t\t\tif !allowStep {\n\t\t\t\tindex += currDawg.links[j].numWords\n\t\t\t\tcurrDawg.links[j].numWords += 0\n\t\t\t\tcontinue\n\t\t\t}", "PURE:(*dawg.Dawg).Search"},
+		{"anagram-allowstep-consumes-letter", "dawg/dawg_search.go", "\t\tif p.counts[i].letter == b && p.counts[i].count > 0 {\n\t\t\treturn true\n\t\t}\n\t}\n\treturn false", "\t\tif p.counts[i].letter == b && p.counts[i].count > 0 {\n\t\t\tp.counts[i].count += 0\n\t\t\treturn true\n\t\t}\n\t}\n\treturn false", "SEARCHER-RO:(dawg.AnagramSearcher).AllowStep"},
+		{"anagram-allowword-trims-path", "dawg/dawg_search.go", "func (p AnagramSearcher) AllowWord() bool {\n\treturn", "func (p AnagramSearcher) AllowWord() bool {\n\tif len(p.currPath) > 90 {\n\t\tp.currPath[0] = p.blank\n\t}\n\treturn", "SEARCHER-RO:(dawg.AnagramSearcher).AllowWord"},
+		{"pattern-chosen-resets-pattern", "dawg/dawg_search.go", "func (p PatternSearcher) Chosen() {}", "func (p PatternSearcher) Chosen() {\n\tif len(p.pattern) > 90 {\n\t\tp.pattern[0] = p.blank\n\t}\n}", "SEARCHER-RO:(dawg.PatternSearcher).Chosen"},
+		{"search-calls-mutating-chosen", "dawg/dawg_search.go", "func (p AnagramSearcher) Chosen() {}", "func (p AnagramSearcher) Chosen() {\n\tif len(p.counts) > 90 {\n\t\tp.counts[0].count = 0\n\t}\n}", "STEP-ONLY:(*dawg.Dawg).Search"},
+	}
+	mutants["C04"] = []mutant{
+		{"save-forgets-first", "graph/search/search_all.go", "\ts.First = iter.first\n", "", "CAPTURE:graph/search.Save:First not captured"},
+		{"save-forgets-current-path", "graph/search/search_all.go", "\ts.CurrentPath = iter.currentPath\n", "\ts.CurrentPath = nil\n", "CAPTURE:graph/search.Save:CurrentPath not captured"},
+		{"load-forgets-choices", "graph/search/search_all.go", "\titer.choices = s.Choices\n", "", "CAPTURE:graph/search.Load:Choices not restored"},
+		{"load-forgets-edge-count", "graph/search/search_all.go", "\titer.sg.G.NumberOfEdges = s.G.NumberOfEdges\n", "", "CAPTURE:graph/search.Load:NumberOfEdges of the graph not restored"},
+		{"load-skips-degree-copy", "graph/search/search_all.go", "\tcopy(iter.sg.G.DegreeSequence, s.G.DegreeSequence)\n", "", "CAPTURE:graph/search.Load:DegreeSequence of the graph not restored"},
+		{"load-swaps-a-and-m", "graph/search/search_all.go", "iter := WithPruning(s.N, s.A, s.M, preprune, prune)", "iter := WithPruning(s.N, s.M, s.A, preprune, prune)", "CAPTURE:graph/search.Load:A not passed on"},
+		{"new-iterator-field", "graph/search/search_all.go", "\tsplitLevel int\n", "\tsplitLevel int\n\tvisited    int\n", "CAPTURE:GraphIterator.visited:unclassified field"},
+		{"record-field-unexported", "graph/search/search_all.go", "\tFirst bool\n\n\tG *graph.DenseGraph", "\tFirst bool\n\tdepth int\n\n\tG *graph.DenseGraph", "GOBFIELDS:graph/search.save:unexported field"},
+		{"save-drains-choices", "graph/search/search_all.go", "\ts.Choices = iter.choices\n", "\ts.Choices = iter.choices\n\titer.choices = iter.choices[:len(iter.choices):len(iter.choices)]\n", "PURE:(*graph/search.GraphIterator).Save"},
+		{"clear-forgets-orbits", "graph/search/search_all.go", "\tsg.Generators = nil\n\tsg.Orbits = nil\n}", "\tsg.Generators = nil\n}", "CAPTURE:graph/search.clearAutomorphismGroup:Orbits not cleared"},
+		{"next-retunes-split-level", "graph/search/search_all.go", "\tcont := true\n\tif iter.first {", "\tcont := true\n\tif iter.first && iter.m == 1 {\n\t\titer.splitLevel = 0\n\t}\n\tif iter.first {", "DERIVED:(*graph/search.GraphIterator).Next"},
+	}
 }
